@@ -132,6 +132,20 @@ static void run_case (int format, int ch, int n, int idscheme, int lenscheme, in
 	/* an id that was never set yields no iterator (or an empty iteration) */
 	{	SF_CHUNK_INFO q ; SF_CHUNK_ITERATOR *it ; memset (&q, 0, sizeof (q)) ; snprintf (q.id, sizeof (q.id), "zZ9~") ; q.id_size = 4 ;
 		it = sf_get_chunk_iterator (s, &q) ; if (it != NULL) vh_viol (vh_key ("C13|iterator-for-absent-id|%s", fn), "iterator returned for an id that is not in the file") ; }
+	/* chunk queries in the middle of reading: the audio stream continues where it was (no seek in between) */
+	if (n > 0 && !late && N > 40)
+	{	SF_CHUNK_ITERATOR *it ; sf_count_t g1, g2 ; int bad = 0 ; float *fb = malloc (sizeof (float) * (N + 2) * ch) ; short *back = malloc (sizeof (short) * (N + 2) * ch) ;
+		sf_seek (s, 0, SEEK_SET) ;
+		g1 = fp ? sf_readf_float (s, fb, 17) : sf_readf_short (s, back, 17) ;
+		it = sf_get_chunk_iterator (s, NULL) ;
+		while (it) { SF_CHUNK_INFO ci ; memset (&ci, 0, sizeof (ci)) ; if (sf_get_chunk_size (it, &ci) == 0 && ci.datalen < 70000000) { unsigned char *b = vh_guard_alloc (ci.datalen, 0xEE) ; ci.data = b ; sf_get_chunk_data (it, &ci) ; free (b) ; } it = sf_next_chunk_iterator (it) ; }
+		g2 = fp ? sf_readf_float (s, fb + 17 * ch, N - 17) : sf_readf_short (s, back + 17 * ch, N - 17) ;
+		if (fp) for (i = 0 ; i < N * ch ; i++) back [i] = (short) lrintf (fb [i]) ;
+		if (g1 != 17 || g2 != N - 17) bad = 1 ; else if (memcmp (back, audio, sizeof (short) * N * ch)) bad = 2 ;
+		if (bad) vh_viol (vh_key ("C13|chunk-query-disturbs-audio|%s%s%s", fn, over, idq), "17 frames read, all chunks fetched with sf_get_chunk_data, then the remaining %d frames read without a seek: got %ld + %ld frames%s", N - 17, (long) g1, (long) g2, bad == 2 ? ", data differs from what was written" : "") ;
+		else vh_stat ("audio_continues_after_chunk_queries", 1) ;
+		free (fb) ; free (back) ;
+		}
 	vh_check_inv (s, "iteration") ;
 	sf_close (s) ;
 done :
